@@ -10,6 +10,7 @@ CONSTANTS
   NViews = 2
   PokeTTLs = {1, 2}
   MaxOps = 1000
+  Faults = FALSE
   Full = FALSE
   DetOnly = FALSE
 INIT Init
